@@ -6,6 +6,7 @@ package symstate
 import (
 	"context"
 	"io"
+	"sort"
 
 	"0chain.net/chaincore/block"
 	cstate "0chain.net/chaincore/chain/state"
@@ -29,11 +30,11 @@ func NewModelMPT() *ModelMPT {
 	return &ModelMPT{vals: map[string][]byte{}, cache: tc}
 }
 
-func (m *ModelMPT) SetNodeDB(ndb util.NodeDB)        {}
-func (m *ModelMPT) GetNodeDB() util.NodeDB           { return modelNodeDB{} }
-func (m *ModelMPT) SetVersion(v util.Sequence)       { m.version = v }
-func (m *ModelMPT) GetVersion() util.Sequence        { return m.version }
-func (m *ModelMPT) GetRoot() util.Key                { return util.Key("model-root") }
+func (m *ModelMPT) SetNodeDB(ndb util.NodeDB)           {}
+func (m *ModelMPT) GetNodeDB() util.NodeDB              { return modelNodeDB{} }
+func (m *ModelMPT) SetVersion(v util.Sequence)          { m.version = v }
+func (m *ModelMPT) GetVersion() util.Sequence           { return m.version }
+func (m *ModelMPT) GetRoot() util.Key                   { return util.Key("model-root") }
 func (m *ModelMPT) Cache() *statecache.TransactionCache { return m.cache }
 
 func (m *ModelMPT) GetNodeValue(path util.Path, v util.MPTSerializable) error {
@@ -116,17 +117,17 @@ func (m *ModelMPT) MergeDB(ndb util.NodeDB, root util.Key, deadNodes []util.Node
 // modelNodeDB satisfies util.NodeDB for code that only probes the root node.
 type modelNodeDB struct{}
 
-func (modelNodeDB) GetNode(key util.Key) (util.Node, error)       { return nil, nil }
-func (modelNodeDB) PutNode(key util.Key, node util.Node) error    { return nil }
-func (modelNodeDB) DeleteNode(key util.Key) error                 { return nil }
+func (modelNodeDB) GetNode(key util.Key) (util.Node, error)    { return nil, nil }
+func (modelNodeDB) PutNode(key util.Key, node util.Node) error { return nil }
+func (modelNodeDB) DeleteNode(key util.Key) error              { return nil }
 func (modelNodeDB) Iterate(ctx context.Context, handler util.NodeDBIteratorHandler) error {
 	return nil
 }
-func (modelNodeDB) Size(ctx context.Context) int64                          { return 0 }
-func (modelNodeDB) MultiGetNode(keys []util.Key) ([]util.Node, error)       { return nil, nil }
-func (modelNodeDB) MultiPutNode(keys []util.Key, nodes []util.Node) error   { return nil }
-func (modelNodeDB) MultiDeleteNode(keys []util.Key) error                   { return nil }
-func (modelNodeDB) RecordDeadNodes([]util.Node, int64) error                { return nil }
+func (modelNodeDB) Size(ctx context.Context) int64                             { return 0 }
+func (modelNodeDB) MultiGetNode(keys []util.Key) ([]util.Node, error)          { return nil, nil }
+func (modelNodeDB) MultiPutNode(keys []util.Key, nodes []util.Node) error      { return nil }
+func (modelNodeDB) MultiDeleteNode(keys []util.Key) error                      { return nil }
+func (modelNodeDB) RecordDeadNodes([]util.Node, int64) error                   { return nil }
 func (modelNodeDB) PruneBelowVersion(ctx context.Context, version int64) error { return nil }
 
 // ChildWithCache is the model counterpart of chain.CreateTxnMPT: a per-transaction copy
@@ -395,4 +396,87 @@ func CloneIsolated(label string, x interface {
 	}
 	again, _ := cv2.(util.MPTSerializable).MarshalMsg(nil)
 	sym.Assert(sym.DeepEqual(before, again), label+": mutating a value a read returned never changes what later reads return")
+}
+
+// Deterministic runs f repeatedly on what the caller guarantees is the same input and prior
+// state and asserts that every run yields the same text (outputs, error, events ...) and the
+// same trie content. Under the symbolic executor f is run twice with map iteration order
+// forked independently at every range statement (all orders of maps up to 3 entries, both
+// directions beyond); natively it is run 48 times under the runtime's own randomised order.
+func Deterministic(label string, f func() (string, util.MerklePatriciaTrieI)) {
+	n := 2
+	if !sym.Symbolic() {
+		n = 48
+	}
+	sym.MapOrder(-1)
+	first, firstTrie := f()
+	same := true
+	for i := 1; i < n; i++ {
+		r, t := f()
+		if r != first || !SameWrites(firstTrie, t) {
+			same = false
+		}
+	}
+	sym.MapOrder(0)
+	sym.Assert(same, label)
+}
+
+func writtenPaths(t util.MerklePatriciaTrieI) []string {
+	var paths []string
+	seen := map[string]bool{}
+	for _, p := range Writes(t) {
+		if !seen[p] {
+			seen[p] = true
+			paths = append(paths, p)
+		}
+	}
+	sort.Strings(paths)
+	return paths
+}
+
+// SameWrites reports whether two tries were written at the same paths and now hold the same
+// encoded value (or absence) at each of them.
+func SameWrites(a, b util.MerklePatriciaTrieI) bool {
+	if a == nil || b == nil {
+		return a == nil && b == nil
+	}
+	pa, pb := writtenPaths(a), writtenPaths(b)
+	if len(pa) != len(pb) {
+		return false
+	}
+	for i := range pa {
+		if pa[i] != pb[i] {
+			return false
+		}
+		va, ea := a.GetNodeValueRaw(util.Path(pa[i]))
+		vb, eb := b.GetNodeValueRaw(util.Path(pb[i]))
+		if (ea == nil) != (eb == nil) {
+			return false
+		}
+		if ea == nil && !sym.DeepEqual(va, vb) {
+			return false
+		}
+	}
+	return true
+}
+
+// PickFields chooses n entries (in increasing menu position) from menu; nil when two chosen
+// entries name the same key.
+func PickFields(menu [][2]string, n int) [][2]string {
+	var out [][2]string
+	lo := 0
+	for k := 0; k < n; k++ {
+		if lo > len(menu)-1 {
+			return nil
+		}
+		i := sym.Choice("field", lo, len(menu)-1)
+		lo = i + 1
+		for _, e := range out {
+			if e[0] == menu[i][0] {
+				return nil
+			}
+		}
+		out = append(out, menu[i])
+	}
+	return out
 }
